@@ -23,7 +23,7 @@ import (
 )
 
 func init() {
-	register("serve goroutines (server/client.go serve)", serveFacts)
+	register("Serve", "serve goroutines (server/client.go serve)", serveFacts)
 }
 
 func serveFacts(repo string, w *bytes.Buffer) error {
